@@ -8,6 +8,22 @@ CHECKS = {
          "Held on every execution observed: tokenize() is run on all strings of <=4 (quick) / <=5 (thorough) symbols over a 32-symbol alphabet covering every character class, on keyword edits, random Unicode texts and long literals; each result is checked against model-free partition invariants and against an independent specification tokenizer. Exhaustive within the enumerated space, sampled beyond it.",
          "Trusts Rust's char classification, unicode-segmentation grapheme boundaries and num-bigint comparison; the reference tokenizer (harness/src/rtok.rs) is the specification of DESIGN.md A.1/A.2.",
          "DESIGN.md section 4, C09"),
+ "C10": ("runtime monitor: metamorphic re-layout under the layout rule + exhaustive bigram/filler table + specification-tokenizer differential",
+         "Held on every execution observed: 20 rule-conforming re-layouts of each corpus/generated program and token soup must leave the token stream and the parse result unchanged; every token-kind bigram x 14 gap fillers is judged by the rule; all strings of <=6 (quick) / <=7 (thorough) symbols over a layout alphabet are compared with the specification tokenizer.",
+         "The layout rule of DESIGN.md A.2 is the specification (a terminator directly after `}` is a don't-care). Trusts Rust's char classification.",
+         "DESIGN.md section 4, C10"),
+ "C13": ("runtime monitor: byte comparison of repeated process launches and of repeated in-process parses (fresh hash keys each time)",
+         "Held on every execution observed: files built to yield several order-sensitive diagnostics are launched repeatedly through `gram check` and `gram run` and must be byte-identical (stdout, stderr, status); every file is also pushed 20 times through tokenize+parse(+type_check) in-process. Probabilistic reach: a k-way order dependence survives N launches with probability (1/k!)^(N-1).",
+         "Assumes std RandomState draws a fresh key per process and per HashSet/HashMap instance (true for the pinned toolchain). Process launches are capped by the sandbox's launch rate (about 100/s).",
+         "DESIGN.md section 4, C13"),
+ "C14": ("runtime monitor: panic capture and Err-nonempty checks around each library stage in isolated workers + process-boundary contract monitor of `gram check`",
+         "Held on every execution observed: all byte strings <=2 bytes, all token sequences <=4 (quick) / <=5 (thorough) tokens, random bytes incl. invalid UTF-8, token soups, every single-token mutant and truncation of the corpus, nesting families to depth 200; no stage panicked, no Err was empty, parse stayed under its logical work cap, and `gram check` kept its exit-status/stdout/stderr contract on the subset sent through the real binary.",
+         "Library stages are observed in the harness build of gram's sources (checked arithmetic); wall-clock timeouts and stack exhaustion at the process boundary are inconclusive, never violations.",
+         "DESIGN.md section 4, C14"),
+ "C17": ("runtime monitor: logical work counter (parse-function invocations, hook) with abort cap, plus thread CPU time, over parameterised input families",
+         "Held on every execution observed: for 30 families x 3 forms x sizes 16..2048 (quick) / 4096 (thorough) the number of parse-function invocations stayed linear (local exponent <= 2.5, never above the quadratic cap) and CPU time showed no super-quadratic growth.",
+         "Observational bound over families, not all inputs. W sees only the memoised parse functions; the rest is covered by CPU time, judged only above 300 ms.",
+         "DESIGN.md section 4, C17"),
 }
 REASON_PENDING = "check not built yet in this revision of the framework (planned; see DESIGN.md section 8)"
 def main():
